@@ -642,7 +642,7 @@ func c27Obs(root string, p *interp.Runner) string {
 type c27Env struct {
 	c    *Ctx
 	root string // real directory standing for /S, with subdirectories d1, d2
-	fx   bool   // the tree has the clone-before-append repair: tie against the `…fx` model
+	fx   bool   // the tree clones before `+=` (the code as it is since db7f3b5); false: tie against the `…pinned` model
 	// the option array of a fresh Runner (bash options have default states)
 	optBits string
 }
@@ -714,36 +714,10 @@ func (cs *c27Case) setupSrc(root string) string {
 }
 
 func (e *c27Env) line(op string, cs *c27Case, childToks []string) string {
-	if e.fx {
-		op += "fx"
+	if !e.fx {
+		op += "pinned" // the tree shows the old in-place append again: tie against the pinned model
 	}
 	return op + " " + b01(cs.Bg) + " " + e.baseTok() + " " + hx("/S") + " " + e.optBits + " " + strings.Join(cs.setupToks(), " ") + " | " + strings.Join(childToks, " ")
-}
-
-// c27LeakRegion reports whether op, run in the child now, is in the region of the known finding
-// C27-append-inherited-array: `name+=word` (plain, subscripted, inline before a command, or through the declare family)
-// while name resolves to an indexed array whose element storage is shared with the parent.
-// It is decided on the real state (hook dump: d[0] parent, d[1] child), so the exclusion is exact.
-func c27LeakRegion(d []interp.VerifC27Runner, o *c27Op) bool {
-	if (o.K != "A" && o.K != "D" && o.K != "IA") || !o.App || o.RhsKind != 1 {
-		return false
-	}
-	pl, pi := map[int]bool{}, map[int]bool{}
-	for _, sc := range d[0].Scopes {
-		for _, v := range sc.Vars {
-			pl[v.ListClass], pi[v.IdxClass] = true, true
-		}
-	}
-	pl[d[0].Params.Class], pl[d[0].DirStack.Class] = true, true
-	for _, sc := range d[1].Scopes {
-		for _, v := range sc.Vars {
-			if v.Name != o.Name {
-				continue
-			}
-			return v.Kind == int(expand.Indexed) && ((v.ListClass > 0 && pl[v.ListClass]) || (v.IdxClass > 0 && pi[v.IdxClass]))
-		}
-	}
-	return false
 }
 
 // runCase executes the case on the real code, emits the tie and spec lines and performs the Go
@@ -1244,7 +1218,7 @@ func c27GrowTab(kind string, n int) string {
 var c27Sink any
 
 func c27CaseFromLine(l string) (c27Case, string, bool) {
-	// corpus format: the spec line itself: spec[fx] <bg> <base> <dir> <optbits> <setup toks> | <child toks>
+	// corpus format: the spec line itself: spec[pinned] <bg> <base> <dir> <optbits> <setup toks> | <child toks>
 	// optionally prefixed by "ctx=<context> " for the whole-program leg.
 	ctxName := ""
 	if strings.HasPrefix(l, "ctx=") {
@@ -1315,21 +1289,22 @@ func c27(c *Ctx) {
 		}
 	}
 
-	// Which variant of assignVal does the tree have?  The canonical witness decides.
+	// Which variant of assignVal does the tree have?  The canonical witness decides (reported in
+	// evidence as extra.assignval_variant).  If the old behaviour is back the tie follows it and the
+	// violation is reported through the failing inputs of the spec/search legs.
 	witness := c27Case{
 		Setup: []c27Step{{Ops: []c27Op{{K: "A", Name: "a", RhsKind: 2, Elems: []c27Elem{{V: "x"}, {V: "y"}, {V: "z"}}}}}},
 		Child: []c27Step{{Ops: []c27Op{{K: "A", Name: "a", App: true, RhsKind: 1, S: "Q"}}}},
 	}
 	_, leaks, _ := e.runCase(&witness, false, nil)
 	e.fx = !leaks
-	c.Extra["assignval_variant"] = map[bool]string{true: "clone-before-append (repaired)", false: "in-place append (vars.go:418/420)"}[e.fx]
+	c.Extra["assignval_variant"] = map[bool]string{true: "clone-before-append (current model, fx=true)", false: "in-place append (PINNED old model, fx=false): defect C27-append-inherited-array is back"}[e.fx]
 
 	if c.Shard == 0 {
 		c.Op("growtab s 24", c27GrowTab("s", 24))
 		c.Op("growtab i 24", c27GrowTab("i", 24))
 	}
 
-	excluded := 0
 	check := func(cs *c27Case, next func(d []interp.VerifC27Runner) *c27Step, tags ...string) {
 		w, changed, note := e.runCase(cs, true, next)
 		nontrivial := false
@@ -1380,26 +1355,12 @@ func c27(c *Ctx) {
 	for i := 0; i < c.N; i++ {
 		cs, kinds := g.genSetup()
 		want := 1 + c.R.Intn(maxOps)
-		next := func(d []interp.VerifC27Runner) *c27Step {
+		next := func(_ []interp.VerifC27Runner) *c27Step {
 			if len(cs.Child) >= want {
 				return nil
 			}
-			for tries := 0; tries < 50; tries++ {
-				st := g.step(kinds, false, true)
-				bad := false
-				for j := range st.Ops {
-					// The exclusion (known finding C27-append-inherited-array), nothing else:
-					if !e.fx && c27LeakRegion(d, &st.Ops[j]) {
-						bad = true
-					}
-				}
-				if bad {
-					excluded++
-					continue
-				}
-				return &st
-			}
-			return nil
+			st := g.step(kinds, false, true) // nothing is excluded (C27-append-inherited-array is fixed)
+			return &st
 		}
 		check(&cs, next)
 		// Every other case is also run as a whole program in one of the isolating contexts.
@@ -1407,7 +1368,6 @@ func c27(c *Ctx) {
 			progs = append(progs, progCase{cs, c27Contexts[(i/2)%len(c27Contexts)], ""})
 		}
 	}
-	c.Extra["excluded_known_region"] = excluded
 
 	type progRes struct{ before, after, skip string }
 	results := parallelMap(len(progs), 4, func(i int) progRes {
